@@ -89,7 +89,7 @@ def shard(i, n, args):
     for root in ctx.select_roots(py, i, n, kinds=("S",)):
         if root.cls is None:
             continue
-        nrand = 1 if tier == "quick" else 30
+        nrand = 3 if tier == "quick" else 80
         for lab, tree, site, alt in all_cases(mm, root, seed, tier, n_random=nrand, forced=(tier != "quick")):
             if lab == "maximal3" and tier == "quick":
                 continue
@@ -129,7 +129,7 @@ def shard(i, n, args):
 
 def main(tier):
     rep = common.Report("C11", tier)
-    nsh = 4 if tier == "quick" else common.NCPU
+    nsh = min(8, common.NCPU) if tier == "quick" else common.NCPU
     results, inconc = common.run_shards("c11", nsh, args=[tier])
     for r in inconc:
         rep.inconc(r)
